@@ -1192,6 +1192,9 @@ def _is_too_costly_to_call(function_name: str, args: Sequence[Any], is_method: b
         return _is_too_large_to_compute(ast.Pow(), *args)
     if is_method and any(type(arg) is int and arg > limit for arg in args):
         return True  # "".ljust(10 ** 10)
+    if function_name == "range" and not is_method and all(type(arg) is int for arg in args):
+        # A range takes no memory, but "1.5 in range(10 ** 12)" goes through it number by number
+        return bool(args) and (len(args) > 3 or (len(args) == 3 and args[2] == 0) or len(range(*args)) > limit)
 
     return function_name != "len" and any(
         isinstance(arg, (range, str, bytes, tuple, list, set, frozenset, dict))
